@@ -4,6 +4,8 @@ import (
 	"context"
 	"log/slog"
 
+	"google.golang.org/grpc/metadata"
+
 	"github.com/oxia-db/oxia/proto"
 	"github.com/oxia-db/oxia/server/kv"
 )
@@ -11,7 +13,8 @@ import (
 // ZZNodeSequence (C04, C05): a NODE — the real internalRpcServer entry points over the real shards director,
 // which creates, closes and re-creates the real leader / follower controllers over one persistent (model) WAL
 // and KV store — receives a sequence of `steps` coordinator / leader requests, each of a symbolic kind
-// (NewTerm, BecomeLeader, Truncate, AddFollower, GetStatus) carrying a symbolic term. After every request:
+// (NewTerm, BecomeLeader, Truncate, AddFollower, GetStatus, or a SendSnapshot stream of another term arriving at a
+// leader controller) carrying a symbolic term. After every request:
 //   - the node's term (the controller's, and the one read back from the DB) never decreases;
 //   - a NewTerm / BecomeLeader / Truncate / AddFollower naming a term BELOW the node's term is refused and
 //     changes neither term nor role nor log;
@@ -42,7 +45,7 @@ func ZZNodeSequence(steps int) {
 		}
 	}
 	for i := 0; i < steps; i++ {
-		kind := vChoice("kind", 5)
+		kind := vChoice("kind", 6)
 		t := int64(vChoice("term", 5))
 		head := w.lastAppended
 		wasLeading, prev := leading, cur
@@ -86,6 +89,24 @@ func ZZNodeSequence(steps int) {
 			if err == nil {
 				vAssert("add-follower-only-on-the-leader-of-that-term", leading && t == cur)
 			}
+		case 5:
+			// a snapshot stream whose headers (and chunk) name ANOTHER term than the node's reaches a node that
+			// runs a leader controller (leading, or fenced by NewTerm): a late request must not replace the
+			// controller, let alone touch log or database. (On a follower controller the same stream is the
+			// listed finding KF-C04-stale-snapshot-wipes-log and is exercised by ZZFollowerSnapshot.)
+			vAssume(ctl == 1 && t != cur)
+			ts := "0"
+			for v := int64(1); v < 5; v++ {
+				if t == v {
+					ts = string([]byte{byte('0' + v)})
+				}
+			}
+			sctx := metadata.NewIncomingContext(context.Background(), metadata.Pairs("shard-id", "1", "namespace", "zz", "term", ts))
+			sst := &zzSnapStreamCtx{zzSnapStream: zzSnapStream{chunks: []*proto.SnapshotChunk{{Term: t, Name: "f", ChunkIndex: 0, ChunkCount: 1, Content: []byte{1}}}}, ctx: sctx}
+			err = srv.SendSnapshot(sst)
+			vAssert("snapshot-of-another-term-refused-by-a-leader-controller", err != nil && sst.resp == nil)
+			_, stillL := sd.leaders[1]
+			vAssert("late-snapshot-does-not-replace-the-leader-controller", stillL)
 		case 4:
 			st, serr := srv.GetStatus(ctx, &proto.GetStatusRequest{Shard: 1})
 			vAssert("status-available-once-a-controller-exists", (serr == nil) == (ctl != 0))
@@ -95,9 +116,9 @@ func ZZNodeSequence(steps int) {
 		}
 		vAssert("term-never-decreases", cur >= prev)
 		if wasLeading && !leading {
-			vAssert("leadership-ends-only-by-a-request-of-a-term-not-below", kind < 4 && t >= prev)
+			vAssert("leadership-ends-only-by-a-request-of-a-term-not-below", kind != 4 && t >= prev)
 		}
-		if kind < 4 && t < cur {
+		if kind != 4 && t < cur {
 			vAssert("stale-term-refused", err != nil)
 		}
 		// node-level invariants, from the controllers and from what a restart would read
@@ -120,6 +141,13 @@ func ZZNodeSequence(steps int) {
 	}
 	vReach("end")
 }
+
+type zzSnapStreamCtx struct {
+	zzSnapStream
+	ctx context.Context
+}
+
+func (s *zzSnapStreamCtx) Context() context.Context { return s.ctx }
 
 func zzStoredTerm(m *zzKV) (int64, kv.TermOptions, error) {
 	d, err := kv.NewDB("zz", 1, &zzFactory{kv: m}, 0, nil)
